@@ -195,6 +195,7 @@ class FixRotSuite(common.Suite):
 
         atoms = H.make_atoms({**case, "momenta": None})
         p = np.array(case["momenta"], float)
+        pos_before = atoms.get_positions().tobytes()
         if case["via"] == "direct":
             new = p.copy()
             FixRot().adjust_momenta(atoms, new)
@@ -207,6 +208,8 @@ class FixRotSuite(common.Suite):
         L0 = np.cross(r, p).sum(axis=0)
         L1 = np.cross(r, new).sum(axis=0)
         return {"p": new.tolist(), "L_before": L0.tolist(), "L_after": L1.tolist(),
+                "positions_untouched": atoms.get_positions().tobytes() == pos_before and np.array_equal(
+                    atoms.get_positions(), np.array(case["positions"], float)),
                 "dP": (new.sum(axis=0) - p.sum(axis=0)).tolist(),
                 "scale_L": float(np.sum(np.linalg.norm(r, axis=1) * np.linalg.norm(p, axis=1))),
                 "scale_P": float(np.abs(p).sum()),
@@ -246,6 +249,8 @@ class FixRotSuite(common.Suite):
         if e:
             return e
         out = []
+        if obs.get("positions_untouched") is False:
+            out.append((f"fixrot:positions-moved:{case['via']}", "adjusting the momenta changed the positions of the atoms"))
         sl = max(obs["scale_L"], 1e-300)
         sp = max(obs["scale_P"], 1e-300)
         la = float(np.abs(np.array(obs["L_after"])).max())
